@@ -1,6 +1,6 @@
 //@ assume: PMMRHandle / PMMRBackend / TxHashSet / Batch / PMMR / HeaderExtension / Extension are abstract (same field structure and the same `&'a mut` borrows as the real types; backends carry ghost counters of discard() and sync() calls); HeaderExtension::new / Extension::new / PMMR::at are abstract constructors that take the real borrows; the closure `inner` is arbitrary (any FnOnce with the real signature): whatever it does to the extension, the batch and -- through the borrows -- the backends
 //@ assume: T5: generic `PMMRHandle<BlockHeader>` => the abstract handle; lifetimes on Batch dropped; log macros removed (T3). No statement of the function is rewritten.
-//@ assume: the obligations are assertions spliced at the two exits (T4) relative to a ghost snapshot `mid` taken right after the closure ran (the closure's own effects are arbitrary and cannot be stated against old())
+//@ assume: the obligations are (i) postconditions over ghost operation logs of the backends (`ops`: 1 = discard, 2 = sync; 'untouched, or the last operation is a discard'), which survive a restructuring of the exits, and (ii) the stronger assertions spliced at the two exits (T4, optional `before?` splices, dropped when an exit is textually gone) relative to a ghost snapshot `mid` taken right after the closure ran (the closure's own effects are arbitrary and cannot be stated against old())
 //@ assume: decided here: the unit-of-work wrapper of every block/fork application -- txhashset::extending -- DISCARDS everything when the closure fails or forces a rollback (losing-fork / no-more-work blocks): all three MMR backends and the header backend get discard(), none is synced, the MMR sizes and the bitmap accumulator of the TxHashSet are NOT touched; and it commits (child batch commit, three syncs, sizes and bitmap accumulator taken from the extension) only on Ok without rollback; the closure's result is returned unchanged
 //@ assumed_items: 12
 //@ fns: txhashset::extending
@@ -14,12 +14,12 @@ impl BitmapAccumulator {
     pub fn clone(&self) -> (r: BitmapAccumulator) ensures r == *self { unimplemented!() }
 }
 pub enum Error { Store, Other }
-pub struct PMMRBackend { pub discards: Ghost<int>, pub syncs: Ghost<int>, pub content: Ghost<int> }
+pub struct PMMRBackend { pub discards: Ghost<int>, pub syncs: Ghost<int>, pub content: Ghost<int>, pub ops: Ghost<Seq<int>> }
 impl PMMRBackend {
     #[verifier::external_body]
-    pub fn discard(&mut self) ensures final(self).discards@ == old(self).discards@ + 1, final(self).syncs@ == old(self).syncs@ { unimplemented!() }
+    pub fn discard(&mut self) ensures final(self).discards@ == old(self).discards@ + 1, final(self).syncs@ == old(self).syncs@, final(self).ops@ == old(self).ops@.push(1) { unimplemented!() }
     #[verifier::external_body]
-    pub fn sync(&mut self) -> (r: Result<(), Error>) ensures final(self).syncs@ == old(self).syncs@ + 1, final(self).discards@ == old(self).discards@ { unimplemented!() }
+    pub fn sync(&mut self) -> (r: Result<(), Error>) ensures final(self).syncs@ == old(self).syncs@ + 1, final(self).discards@ == old(self).discards@, final(self).ops@ == old(self).ops@.push(2), r matches Err(e) ==> e is Store { unimplemented!() }
 }
 pub struct PMMRHandle { pub backend: PMMRBackend, pub size: u64 }
 pub struct TxHashSet { pub output_pmmr_h: PMMRHandle, pub rproof_pmmr_h: PMMRHandle, pub kernel_pmmr_h: PMMRHandle, pub bitmap_accumulator: BitmapAccumulator }
@@ -32,7 +32,7 @@ impl Batch {
     #[verifier::external_body]
     pub fn child(&mut self) -> (r: Result<Batch, Error>) ensures final(self).commits@ == old(self).commits@ { unimplemented!() }
     #[verifier::external_body]
-    pub fn commit(self) -> (r: Result<(), Error>) { unimplemented!() }
+    pub fn commit(self) -> (r: Result<(), Error>) ensures r matches Err(e) ==> e is Store { unimplemented!() }
 }
 pub struct PMMR<'a> { pub backend: &'a mut PMMRBackend, pub size: u64 }
 impl<'a> PMMR<'a> {
@@ -52,6 +52,17 @@ impl<'a> Extension<'a> {
 }
 pub struct ExtensionPair<'b, 'a> { pub header_extension: &'b mut HeaderExtension<'a>, pub extension: &'b mut Extension<'a> }
 
+/// the LAST thing done to a backend is a discard (1) / a sync (2) -- whatever an arbitrary closure did to it before
+pub open spec fn ends_with(b: PMMRBackend, op: int) -> bool { b.ops@.len() > 0 && b.ops@.last() == op }
+pub open spec fn untouched_or_discarded(now: PMMRHandle, before: PMMRHandle) -> bool { now.size == before.size && (now.backend == before.backend || ends_with(now.backend, 1)) }
+/// (the tree handles' sizes and the accumulator are reachable by the closure through `&mut TxHashSet`, so only the exit
+/// assertions, relative to the snapshot taken after the closure ran, can speak about them)
+pub open spec fn backend_rolled_back(now: PMMRBackend, before: PMMRBackend) -> bool { now == before || ends_with(now, 1) }
+pub open spec fn trees_rolled_back(now: TxHashSet, before: TxHashSet) -> bool {
+    backend_rolled_back(now.output_pmmr_h.backend, before.output_pmmr_h.backend) && backend_rolled_back(now.rproof_pmmr_h.backend, before.rproof_pmmr_h.backend)
+    && backend_rolled_back(now.kernel_pmmr_h.backend, before.kernel_pmmr_h.backend)
+}
+pub open spec fn trees_synced(now: TxHashSet) -> bool { ends_with(now.output_pmmr_h.backend, 2) && ends_with(now.rproof_pmmr_h.backend, 2) && ends_with(now.kernel_pmmr_h.backend, 2) }
 pub open spec fn discarded_since(now: TxHashSet, mid: TxHashSet) -> bool {
     &&& now.output_pmmr_h.backend.discards@ == mid.output_pmmr_h.backend.discards@ + 1 && now.output_pmmr_h.backend.syncs@ == mid.output_pmmr_h.backend.syncs@
     &&& now.rproof_pmmr_h.backend.discards@ == mid.rproof_pmmr_h.backend.discards@ + 1 && now.rproof_pmmr_h.backend.syncs@ == mid.rproof_pmmr_h.backend.syncs@
@@ -72,12 +83,12 @@ pub open spec fn committed_since(now: TxHashSet, mid: TxHashSet, sizes: (u64, u6
 //@   sigrewrite `header_pmmr: &'a mut PMMRHandle<BlockHeader>,` => `header_pmmr: &'a mut PMMRHandle,`
 //@   sigrewrite `batch: &'a mut Batch<'_>,` => `batch: &'a mut Batch,`
 //@   sigrewrite `F: FnOnce(&mut ExtensionPair<'_>, &mut Batch<'_>) -> Result<T, Error>,` => `F: FnOnce(&mut ExtensionPair<'_, '_>, &mut Batch) -> Result<T, Error>,`
-//@   before `header_pmmr.backend.discard();`:
+//@   before? `header_pmmr.backend.discard();`:
 //@+    let ghost mid = *trees;
 //@+    let ghost mid_h = *header_pmmr;
-//@   before `\t\t\tErr(e)\n\t\t}`:
+//@   before? `\t\t\tErr(e)\n\t\t}`:
 //@+    proof { assert(discarded_since(*trees, mid)); assert(header_pmmr.backend.discards@ == mid_h.backend.discards@ + 1 && header_pmmr.backend.syncs@ == mid_h.backend.syncs@ && header_pmmr.size == mid_h.size); }
-//@   before `\t\t\tOk(r)\n\t\t}`:
+//@   before? `\t\t\tOk(r)\n\t\t}`:
 //@+    proof {
 //@+        assert(rollback ==> discarded_since(*trees, mid));
 //@+        assert(!rollback ==> committed_since(*trees, mid, sizes, bitmap_accumulator));
@@ -85,5 +96,11 @@ pub open spec fn committed_since(now: TxHashSet, mid: TxHashSet, sizes: (u64, u6
 //@+    }
 //@   requires:
 //@+    forall|e: &mut ExtensionPair, b: &mut Batch| inner.requires((e, b)),
+//@   ensures:
+//@+    // postconditions over the ghost operation logs: they survive a restructuring of the exits
+//@+    (r matches Err(e) && e is Other) ==> trees_rolled_back(*final(trees), *old(trees)) && untouched_or_discarded(*final(header_pmmr), *old(header_pmmr)),
+//@+    r.is_ok() ==> untouched_or_discarded(*final(header_pmmr), *old(header_pmmr)) && ends_with(final(header_pmmr).backend, 1)
+//@+        && (trees_synced(*final(trees)) || (trees_rolled_back(*final(trees), *old(trees)) && ends_with(final(trees).output_pmmr_h.backend, 1)
+//@+            && ends_with(final(trees).rproof_pmmr_h.backend, 1) && ends_with(final(trees).kernel_pmmr_h.backend, 1))),
 //@ end
 //@ canary extending: r.is_err()
